@@ -324,22 +324,19 @@ theorem ubsum_eq_ubC (ts : List Term) (f d : Nat) (h : f ≤ d) (cs : List Cur)
 
 /-! ## pivot selection -/
 
-theorem bound_false (c : Cur) : c.bound false = c.t.ub := by simp [Cur.bound]
-
 theorem findPivot_none (θ : Nat) : ∀ (q : List Cur) (acc : Nat), q ≠ [] →
-    findPivot false θ acc q = none → acc + W q < θ := by
+    findPivot θ acc q = none → acc + W q < θ := by
   intro q
   induction q with
   | nil => intro acc h; exact absurd rfl h
   | cons c r ih =>
     intro acc _ h
     unfold findPivot at h
-    rw [bound_false] at h
     split at h
     · simp at h
     · rename_i hlt
-      have hn : findPivot false θ (acc + c.t.ub) r = none := by
-        cases hf : findPivot false θ (acc + c.t.ub) r with
+      have hn : findPivot θ (acc + c.t.ub) r = none := by
+        cases hf : findPivot θ (acc + c.t.ub) r with
         | none => rfl
         | some v => simp [hf] at h
       by_cases hr : r = []
@@ -349,7 +346,7 @@ theorem findPivot_none (θ : Nat) : ∀ (q : List Cur) (acc : Nat), q ≠ [] →
         omega
 
 theorem findPivot_some (θ : Nat) : ∀ (q : List Cur) (acc p : Nat),
-    findPivot false θ acc q = some p →
+    findPivot θ acc q = some p →
       p < q.length ∧ (0 < p → acc + W (q.take p) < θ) ∧ θ ≤ acc + W (q.take (p + 1)) := by
   intro q
   induction q with
@@ -357,7 +354,6 @@ theorem findPivot_some (θ : Nat) : ∀ (q : List Cur) (acc p : Nat),
   | cons c r ih =>
     intro acc p h
     unfold findPivot at h
-    rw [bound_false] at h
     split at h
     · rename_i hge
       simp at h
@@ -365,7 +361,7 @@ theorem findPivot_some (θ : Nat) : ∀ (q : List Cur) (acc p : Nat),
       refine ⟨by simp, by omega, ?_⟩
       simp [W]; omega
     · rename_i hlt
-      cases hf : findPivot false θ (acc + c.t.ub) r with
+      cases hf : findPivot θ (acc + c.t.ub) r with
       | none => simp [hf] at h
       | some p' =>
         simp [hf] at h
@@ -588,357 +584,5 @@ theorem rel_move (ts : List Term) (f g : Nat) (hfg : f ≤ g) (cs : List Cur) (h
     rw [from_from t f g hfg]
   · intro t _ he
     exact from_nil_mono t f g hfg he
-
-/-! ## unfolding one step -/
-
-theorem step_nil (k : Nat) (blk : Bool) (sc : Nat → Option Nat) (cs : List Cur) (H : List Hit)
-    (hq : sortCurs cs = []) : step k blk sc ⟨cs, H⟩ = none := by
-  simp only [step, hq]
-
-theorem step_none (k : Nat) (blk : Bool) (sc : Nat → Option Nat) (cs : List Cur) (H : List Hit)
-    (c0 : Cur) (rest : List Cur) (hq : sortCurs cs = c0 :: rest)
-    (hp : findPivot blk (theta k H) 0 (c0 :: rest) = none) : step k blk sc ⟨cs, H⟩ = none := by
-  simp only [step, hq, hp]
-  try rfl
-
-theorem step_some (k : Nat) (blk : Bool) (sc : Nat → Option Nat) (cs : List Cur) (H : List Hit)
-    (c0 : Cur) (rest : List Cur) (p : Nat) (hq : sortCurs cs = c0 :: rest)
-    (hp : findPivot blk (theta k H) 0 (c0 :: rest) = some p) :
-    step k blk sc ⟨cs, H⟩ =
-      if ((c0 :: rest).getD p c0).doc == c0.doc then
-        some ⟨(cs.map fun c => if c.doc == c0.doc then c.advance else c).filter notDone,
-          match sc c0.doc with
-          | some v => offer k H (v, c0.doc)
-          | none => H⟩
-      else
-        some ⟨(cs.map fun c =>
-          if c.doc < ((c0 :: rest).getD p c0).doc then
-            (if blk then c.skipToBlock ((c0 :: rest).getD p c0).doc else c).advanceTo
-              ((c0 :: rest).getD p c0).doc
-          else c).filter notDone, H⟩ := by
-  simp only [step, hq, hp]
-  try rfl
-
-
-/-! ## the refinement -/
-
-theorem loop_eq_runDocsO (k : Nat) (sc : Nat → Option Nat) (ts : List Term)
-    (hV : ∀ t ∈ ts, docsInc t.posts) :
-    ∀ (n f : Nat) (cs : List Cur) (H : List Hit) (suf : List Nat),
-      Rel ts f cs → M ts f < n →
-      suf.Pairwise (· < ·) → (∀ d ∈ suf, f ≤ d) →
-      (∀ d ∈ suf, ∃ t ∈ ts, t.has d = true) →
-      (∀ t ∈ ts, ∀ p ∈ t.posts, f ≤ p.1 → p.1 ∈ suf) →
-      loop k false sc n ⟨cs, H⟩ =
-        runDocsO k sc (fun H d => decide (ubsum ts d < theta k H)) H suf := by
-  intro n
-  induction n with
-  | zero => intro f cs H suf _ hM; omega
-  | succ n ih =>
-    intro f cs H suf hr hM hsuf hge hex hmem
-    have hperm := sortCurs_perm cs
-    have hsorted := sortCurs_sorted cs
-    unfold loop
-    cases hq : sortCurs cs with
-    | nil =>
-      have hcs : cs = [] := by
-        rw [hq] at hperm; exact hperm.symm.eq_nil
-      have hnil : cursAt ts f = [] := by rw [← hr, hcs]; rfl
-      have hall := M_zero_of_nil ts f hnil
-      have hsufnil : suf = [] := by
-        cases suf with
-        | nil => rfl
-        | cons d ds =>
-          obtain ⟨t, ht, hhas⟩ := hex d (by simp)
-          rw [has_iff_from t f d (hge d (by simp)), hall t ht] at hhas
-          simp at hhas
-      rw [step_nil k false sc cs H hq, hsufnil]
-      rfl
-    | cons c0 rest =>
-      rw [hq] at hperm hsorted
-      -- every cursor of the queue
-      have hcur : ∀ c ∈ c0 :: rest, c.t ∈ ts ∧ c.rest = c.t.from f ∧ c.rest ≠ [] ∧ docsInc c.rest := by
-        intro c hc
-        have hc' : c ∈ cs := hperm.mem_iff.mp hc
-        obtain ⟨h1, h2, h3⟩ := rel_mem ts f cs hr c hc'
-        refine ⟨h1, h2, h3, ?_⟩
-        rw [h2]; exact dw_inc f _ (hV _ h1)
-      have hmin : ∀ c ∈ c0 :: rest, c0.doc ≤ c.doc := by
-        intro c hc
-        unfold SortedD at hsorted
-        rw [List.pairwise_cons] at hsorted
-        rcases List.mem_cons.mp hc with rfl | hc
-        · exact Nat.le_refl _
-        · exact hsorted.1 c hc
-      have hub : ∀ d, f ≤ d → ubsum ts d = ubC (c0 :: rest) d := by
-        intro d hd
-        rw [ubsum_eq_ubC ts f d hd cs hr]
-        exact (ubC_perm hperm d).symm
-      -- the smallest current document is a candidate, and no candidate is smaller
-      have hc0 := hcur c0 (by simp)
-      have hfd0 : f ≤ c0.doc := by
-        have h1 := hc0.1; have h2 := hc0.2.1; have h3 := hc0.2.2.1
-        cases hr0 : c0.rest with
-        | nil => exact absurd hr0 h3
-        | cons a as =>
-          have : a ∈ c0.t.posts.dropWhile (fun p => decide (p.1 < f)) := by
-            have : a ∈ c0.rest := by rw [hr0]; simp
-            rw [h2] at this; exact this
-          have hge' := dw_ge_of_inc f c0.t.posts (hV _ h1) a this
-          simp [Cur.doc, hr0]; exact hge'
-      have hc0suf : c0.doc ∈ suf := by
-        have h1 := hc0.1; have h2 := hc0.2.1; have h3 := hc0.2.2.1
-        cases hr0 : c0.rest with
-        | nil => exact absurd hr0 h3
-        | cons a as =>
-          have hmem' : a ∈ c0.t.posts := by
-            apply mem_of_mem_dw f
-            have : a ∈ c0.rest := by rw [hr0]; simp
-            rw [h2] at this; exact this
-          have hd : c0.doc = a.1 := by simp [Cur.doc, hr0]
-          rw [hd]
-          exact hmem c0.t h1 a hmem' (by rw [← hd]; exact hfd0)
-      have hsufmin : ∀ d ∈ suf, c0.doc ≤ d := by
-        intro d hd
-        obtain ⟨t, ht, hhas⟩ := hex d hd
-        have hfd := hge d hd
-        rw [has_iff_from t f d hfd] at hhas
-        have hne : t.from f ≠ [] := by
-          intro he; rw [he] at hhas; simp at hhas
-        obtain ⟨c, hc, hct, hcr⟩ := rel_exists ts f cs hr t ht hne
-        have hcq : c ∈ c0 :: rest := hperm.mem_iff.mpr hc
-        have h1 := hmin c hcq
-        have h2 : c.doc ≤ d := by
-          rw [doc_eq_headDoc, hcr]
-          exact headDoc_le_of_any _ (dw_inc f _ (hV t ht)) d hhas
-        omega
-      cases hp : findPivot false (theta k H) 0 (c0 :: rest) with
-      | none =>
-        rw [step_none k false sc cs H c0 rest hq hp]
-        have hW := findPivot_none (theta k H) (c0 :: rest) 0 (by simp) hp
-        symm
-        apply runDocsO_skip_all
-        intro d hd
-        have := ubC_le_W (c0 :: rest) d
-        rw [← hub d (hge d hd)] at this
-        simp only [decide_eq_true_eq]
-        omega
-      | some p =>
-        obtain ⟨hplen, hlow, hhigh⟩ := findPivot_some (theta k H) (c0 :: rest) 0 p hp
-        rw [step_some k false sc cs H c0 rest p hq hp]
-        have hgetD : (c0 :: rest).getD p c0 = (c0 :: rest)[p] := by
-          rw [List.getD_eq_getElem?_getD, List.getElem?_eq_getElem hplen]; rfl
-        rw [hgetD]
-        generalize hqp : (c0 :: rest)[p] = qp
-        have hqpmem : qp ∈ c0 :: rest := by rw [← hqp]; exact List.getElem_mem hplen
-        -- split the queue at the pivot
-        have hdrop : (c0 :: rest).drop p = qp :: (c0 :: rest).drop (p + 1) := by
-          rw [List.drop_eq_getElem_cons hplen, hqp]
-        have hsplit : c0 :: rest = (c0 :: rest).take p ++ qp :: (c0 :: rest).drop (p + 1) := by
-          rw [← hdrop, List.take_append_drop]
-        have hpw := hsorted
-        unfold SortedD at hpw
-        rw [hsplit, List.pairwise_append, List.pairwise_cons] at hpw
-        obtain ⟨_, ⟨hB, _⟩, hA⟩ := hpw
-        have hA' : ∀ a ∈ (c0 :: rest).take p, a.doc ≤ qp.doc := fun a ha => hA a ha qp (by simp)
-        by_cases hpd : (qp.doc == c0.doc) = true
-        · -- the pivot is at the smallest document: score it
-          simp only [hpd, if_true]
-          have hpd' : qp.doc = c0.doc := by simpa using hpd
-          -- all cursors up to the pivot are at that document
-          have htake : ∀ c ∈ (c0 :: rest).take (p + 1), c.rest.any (fun x => x.1 == c0.doc) = true := by
-            intro c hc
-            rw [List.take_succ_eq_append_getElem hplen, hqp] at hc
-            have hcq : c ∈ c0 :: rest := by
-              rcases List.mem_append.mp hc with h | h
-              · exact List.mem_of_mem_take h
-              · simp at h; rw [h]; exact hqpmem
-            have hle : c.doc ≤ c0.doc := by
-              rcases List.mem_append.mp hc with h | h
-              · have := hA' c h; omega
-              · simp at h; rw [h]; omega
-            have hge' := hmin c hcq
-            have heq : c0.doc = headDoc c.rest := by rw [← doc_eq_headDoc]; omega
-            rw [heq]
-            exact any_of_headDoc c.rest (hcur c hcq).2.2.1
-          have hnoskip : ¬ ubsum ts c0.doc < theta k H := by
-            rw [hub c0.doc hfd0]
-            have h1 := ubC_all _ c0.doc htake
-            have h2 : ubC (c0 :: rest) c0.doc =
-                ubC ((c0 :: rest).take (p + 1)) c0.doc + ubC ((c0 :: rest).drop (p + 1)) c0.doc := by
-              rw [← ubC_append, List.take_append_drop]
-            omega
-          -- shape of the remaining candidates
-          cases suf with
-          | nil => simp at hc0suf
-          | cons d0 suf' =>
-            rw [List.pairwise_cons] at hsuf
-            have hd0 : d0 = c0.doc := by
-              have h1 := hsufmin d0 (by simp)
-              rcases List.mem_cons.mp hc0suf with h | h
-              · exact h.symm
-              · have := hsuf.1 _ h; omega
-            subst hd0
-            have hrel' := rel_adv ts hV f c0.doc hfd0
-              (by
-                intro t ht a as he
-                obtain ⟨c, hc, _, hcr⟩ := rel_exists ts f cs hr t ht (by rw [he]; simp)
-                have hcq : c ∈ c0 :: rest := hperm.mem_iff.mpr hc
-                have := hmin c hcq
-                rw [doc_eq_headDoc c, hcr, he] at this
-                simpa [headDoc] using this) cs hr
-            have hM' : M ts (c0.doc + 1) < n := by
-              have : M ts (c0.doc + 1) < M ts f := by
-                apply M_lt f (c0.doc + 1) (by omega)
-                have h1 := hc0.1; have h2 := hc0.2.1; have h3 := hc0.2.2.1
-                cases hr0 : c0.rest with
-                | nil => exact absurd hr0 h3
-                | cons a as =>
-                  refine ⟨c0.t, h1, a, as, by rw [← h2, hr0], ?_⟩
-                  simp [Cur.doc, hr0]
-              omega
-            have hIH := fun H' => ih (c0.doc + 1) _ H' suf' hrel' hM' hsuf.2
-              (by intro d hd; have := hsuf.1 d hd; omega)
-              (by intro d hd; exact hex d (by simp [hd]))
-              (by
-                intro t ht x hx hxge
-                have := hmem t ht x hx (by omega)
-                rcases List.mem_cons.mp this with h | h
-                · omega
-                · exact h)
-            simp only [runDocsO, decide_eq_true_eq, hnoskip, if_false]
-            cases hsc : sc c0.doc with
-            | none => simp only []; exact hIH H
-            | some v => simp only []; exact hIH _
-        · -- the pivot is further on: skip
-          have hpdne : qp.doc ≠ c0.doc := by simpa using hpd
-          simp only [hpd, if_false]
-          have hgt : c0.doc < qp.doc := by have := hmin qp hqpmem; omega
-          have hp0 : 0 < p := by
-            cases p with
-            | zero => simp at hqp; rw [hqp] at hpdne; exact absurd rfl hpdne
-            | succ _ => omega
-          have hlow' := hlow hp0
-          -- candidates below the pivot document are skipped by the rule
-          have hskip : ∀ d ∈ suf.takeWhile (fun d => decide (d < qp.doc)),
-              (fun H d => decide (ubsum ts d < theta k H)) H d = true := by
-            intro d hd
-            obtain ⟨hdlt, hdsuf⟩ := nat_mem_tw qp.doc suf d hd
-            have hfd := hge d hdsuf
-            simp only [decide_eq_true_eq]
-            rw [hub d hfd]
-            have h2 : ubC (c0 :: rest) d =
-                ubC ((c0 :: rest).take p) d + ubC ((c0 :: rest).drop p) d := by
-              rw [← ubC_append, List.take_append_drop]
-            have h3 : ubC ((c0 :: rest).drop p) d = 0 := by
-              apply ubC_zero
-              intro c hc
-              have hcq : c ∈ c0 :: rest := List.mem_of_mem_drop hc
-              have hcd : qp.doc ≤ c.doc := by
-                rw [hdrop] at hc
-                rcases List.mem_cons.mp hc with h | h
-                · rw [h]; exact Nat.le_refl _
-                · exact hB c h
-              apply any_false_of_lt c.rest (hcur c hcq).2.2.2 d
-              rw [← doc_eq_headDoc]; omega
-            have h4 := ubC_le_W ((c0 :: rest).take p) d
-            omega
-          rw [← List.takeWhile_append_dropWhile (p := fun d => decide (d < qp.doc)) (l := suf),
-            runDocsO_skip_prefix k sc _ H _ _ hskip]
-          have hrel' := rel_move ts f qp.doc (by omega) cs hr
-          have hM' : M ts qp.doc < n := by
-            have : M ts qp.doc < M ts f := by
-              apply M_lt f qp.doc (by omega)
-              have h1 := hc0.1; have h2 := hc0.2.1; have h3 := hc0.2.2.1
-              cases hr0 : c0.rest with
-              | nil => exact absurd hr0 h3
-              | cons a as =>
-                refine ⟨c0.t, h1, a, as, by rw [← h2, hr0], ?_⟩
-                have : c0.doc = a.1 := by simp [Cur.doc, hr0]
-                omega
-            omega
-          exact ih qp.doc _ H _ hrel' hM'
-            (List.Pairwise.sublist (List.dropWhile_sublist _) hsuf)
-            (nat_dw_ge qp.doc suf hsuf)
-            (by intro d hd; exact hex d ((List.dropWhile_sublist _).subset hd))
-            (by
-              intro t ht x hx hxge
-              exact nat_mem_dw qp.doc suf x.1 (hmem t ht x hx (by omega)) hxge)
-
-/-! ## from the executable well-formedness check to the hypotheses -/
-
-theorem incr_pairwise : ∀ l : List Nat, incr l = true → l.Pairwise (· < ·) := by
-  intro l
-  induction l with
-  | nil => intro _; exact List.Pairwise.nil
-  | cons a as ih =>
-    intro h
-    cases as with
-    | nil => simp
-    | cons b r =>
-      simp only [incr, Bool.and_eq_true, decide_eq_true_eq] at h
-      have hr := ih h.2
-      rw [List.pairwise_cons] at hr ⊢
-      refine ⟨?_, List.pairwise_cons.mpr hr⟩
-      intro x hx
-      rcases List.mem_cons.mp hx with rfl | hx
-      · exact h.1
-      · have := hr.1 x hx; omega
-
-theorem from_zero (t : Term) : t.from 0 = t.posts := by
-  unfold Term.from
-  cases t.posts with
-  | nil => rfl
-  | cons a as => simp [List.dropWhile_cons]
-
-theorem rel_init (ts : List Term) : Rel ts 0 (initSt ts).cs := by
-  unfold Rel initSt cursAt
-  induction ts with
-  | nil => rfl
-  | cons t r ih =>
-    simp only [List.map_cons, List.filter_cons, from_zero] at ih ⊢
-    have : notDone (Cur.init t) = nonEmpty (t, t.posts) := rfl
-    rw [this]
-    split
-    · simp only [List.map_cons]
-      rw [ih]
-      rfl
-    · exact ih
-
-theorem M_zero_eq (ts : List Term) : M ts 0 = sumLens ts := by
-  induction ts with
-  | nil => rfl
-  | cons t r ih =>
-    simp only [M, List.map_cons, List.sum_cons, sumLens, from_zero] at ih ⊢
-    omega
-
-/-- **The cursor loop with the plain WAND bound computes the decision rule.** -/
-theorem wandLoop_eq_wandRule (k : Nat) (s : SegIn) (hwf : s.wf = true) :
-    wandLoop k false s.sc s.terms = wandRule k s.sc (ubsum s.terms) s.docs := by
-  unfold SegIn.wf at hwf
-  simp only [Bool.and_eq_true] at hwf
-  obtain ⟨⟨⟨h1, h2⟩, h3⟩, h4⟩ := hwf
-  rw [List.all_eq_true] at h2 h3 h4
-  unfold wandLoop wandRule
-  have hst : initSt s.terms = ⟨(initSt s.terms).cs, []⟩ := rfl
-  rw [hst]
-  apply loop_eq_runDocsO k s.sc s.terms
-  · intro t ht
-    have := incr_pairwise _ (h2 t ht)
-    unfold docsInc
-    exact List.pairwise_map.mp this
-  · exact rel_init s.terms
-  · rw [M_zero_eq]; omega
-  · exact incr_pairwise _ h1
-  · intro d _; omega
-  · intro d hd
-    have := h3 d hd
-    rw [List.any_eq_true] at this
-    exact this
-  · intro t ht p hp _
-    have := h4 t ht
-    rw [List.all_eq_true] at this
-    have := this p hp
-    simpa using this
 
 end SL.TK
